@@ -1209,6 +1209,7 @@ class _Ops:
                 link_net = pn
         calls_before = link_net.calls if link_net is not None else 0
         others_before = self._other_params(x)
+        self.pred_replaces(x)  # also when the evaluation is aborted half-way: a generic transform may have rewritten member parameters already
         k = op.get("interrupt")
         if k is not None:
             with Interrupt(int(k)) as mode:
@@ -1326,6 +1327,7 @@ class _Ops:
                 return fl.tensor()
             return t.disp(g) if g is not None else t.disp()
 
+        self.pred_replaces(x)  # (see op_call)
         k = op.get("interrupt")
         if k is not None:
             with Interrupt(int(k)) as mode:
@@ -1481,6 +1483,7 @@ class _Ops:
         if x is None:
             return StepResult("skipped")
         none = self.has_none(x) or not self.links_synced(x)
+        self.pred_replaces(x)  # (see op_call)
         st, r = self.guarded(lambda: x.obj.update(), expect=(Exception,) if none else self.may_be_singular(x))
         if st == "faulted":
             self.c["faults"]["callable_raises"] += 1
@@ -2441,6 +2444,13 @@ class _Ops:
                 sub = self.op_disp({"h": x.hid, "which": op.get("which", "disp")})
                 sr.violations.extend(sub.violations)
             return sr
+        if st == "raised" and isinstance(r, RuntimeError) and "does not require grad" in str(r) and any(
+                not (kind_of(e.obj) == "P" and e.obj.params.requires_grad) for e in self.elems(x)):
+            # the fitted displacement does not depend on any optimisable parameter reachable from x (a member holds a plain
+            # tensor after unlink_ + data_, while parameters() still lists those of link targets): torch's own error
+            self.c["probes"]["fit_without_gradient_path"] += 1
+            self.set_buf(x, "unknown")
+            return StepResult("expected_error", "fit-no-gradient-path")
         if st == "raised":
             return StepResult("ok", "fit-raised", [self.viol("C09", "raises", x, "fit", self.exc_detail(r))])
         self.pred_replaces(x)
